@@ -1498,6 +1498,15 @@ def derive_labels(base, steps):
     return []
 
 
+MEANS_ROUTES = ("means_a", "means_r", "result_absolute", "result_relative")
+
+
+def coll_direct_prior(spec):
+    """a prior held directly by a Collection: prior passing by means takes its limits from the configuration of whatever class
+    the collection reports for it (not from the prior) -- the new limits are then the configuration's business, not C07's"""
+    return any(n["t"] == "coll" and any(v["t"] == "prior" for _, v in n["items"]) for _, n in walk_spec(spec["model"]))
+
+
 def derive_cases(rng, gen, S, quick):
     """pairs (model composed by hand, model derived by the library from S) that must share one identifier -- directly,
     through the files a fit of the derived model writes, and after a second derivation -- and the derived model itself
@@ -1510,11 +1519,15 @@ def derive_cases(rng, gen, S, quick):
     routes = rng.sample(sorted(set(DERIVE_ROUTES)), 3 if quick else 6)
     if "item_number" in features(S):        # positional collections: every replacing route is tried over a few bases
         routes = sorted(set(routes) | {rng.choice(["identity", "partial", "args", "with_limits", "means_a", "uniform_floats"])})
+    second = ["partial", "with_limits", "means_a", "identity", "copy", "uniform_floats"]
+    if coll_direct_prior(S):
+        routes = [r_ for r_ in routes if r_ not in MEANS_ROUTES] or ["partial"]
+        second = [r_ for r_ in second if r_ not in MEANS_ROUTES]
     for route in routes:
         D, H = derive_step(rng, gen, base, route)
         steps, hand, pools = [D], H, [H["pool"]]
         if rng.random() < 0.3:              # a derived model is derived again (a cell of a grid over a passed prior model)
-            D2, hand = derive_step(rng, gen, H, rng.choice(["partial", "with_limits", "means_a", "identity", "copy", "uniform_floats"]))
+            D2, hand = derive_step(rng, gen, H, rng.choice(second))
             steps.append(D2)
             pools.append(hand["pool"])
         how = "derive:" + "+".join(d["route"] for d in steps)
